@@ -76,6 +76,9 @@ Pool == << [kind |-> "ok",        tg |-> Tagged(Simple)],
            [kind |-> "malformed", tg |-> SetRow(Tagged(Simple), 2, PNone)],
            \* a row that is a truthy object without a length
            [kind |-> "malformed", tg |-> SetRow(Tagged(Simple), 1, PInt(2))],
+           \* no countable transition at all; no final state at all
+           [kind |-> "malformed", tg |-> [Tagged(Simple) EXCEPT !.transition_list = PList(<<PList(<<>>), PNone, PList(<<>>)>>)]],
+           [kind |-> "malformed", tg |-> [Tagged(Simple) EXCEPT !.final_states = PList(<<>>)]],
            \* several final states, only one of them out of range (either position)
            [kind |-> "malformed", tg |-> [Tagged(Simple) EXCEPT !.final_states = PList(<<PInt(2), PInt(7)>>)]],
            [kind |-> "malformed", tg |-> [Tagged(DeadHeavy) EXCEPT !.final_states = PList(<<PInt(-1), PInt(4)>>)]],
